@@ -20,7 +20,7 @@ Line protocol of the C07 model (R = Rat).
   deconv2n <BC> <n> <name> <size|dflt> <param|none|dflt> <g|->   -> `err` | `nan` | `psf=<mat> fwd=<mat> adj=<mat>`
 
   hist  <mb|fn> <A> <B|-> <gd> <gr> <ops>           -> the `lin` observation of the object after the history `ops`
-        (`_` or `|`-separated `gm`, `sd=<g>`, `sr=<g>`): fwd/adj/tfwd/tadj on the current geometries, `tgm` of a `T`
+        (`_` or `|`-separated `gm`, `sd=<g>`, `sr=<g>`, `T` = take and keep `self.T`; then `ktfwd/ktadj/ktgm` of the kept T are appended): fwd/adj/tfwd/tadj on the current geometries, `tgm` of a `T`
         taken now, then `gm` (the stored matrix if one was cached)
 
   geometry tokens: `id:n` `imgC:r:c` `imgF:r:c` `step:n:s` `imgCs:r:c` (Continuous2D) `leaf:<sq|nsq>:pd:fd:<E>:<F>`
@@ -93,17 +93,29 @@ def obsLine (o : Obj Q) : String :=
         | _, _ => if M.matrixBacked then fmtL M.tGetMatrix else "err")
   s!"fwd={fmtL fwd} adj={fmtL adj} gm={gm} {t}"
 
-def parseOp (s : String) : Option (Op Q) :=
-  if s = "gm" then some .getMatrix
-  else if s.startsWith "sd=" then (parseGeom (s.drop 3).toString).map .setDom
-  else if s.startsWith "sr=" then (parseGeom (s.drop 3).toString).map .setRng
+def parseOp (s : String) : Option (HOp Q) :=
+  if s = "gm" then some (.base .getMatrix)
+  else if s = "T" then some .takeT
+  else if s.startsWith "sd=" then (parseGeom (s.drop 3).toString).map (fun g => .base (.setDom g))
+  else if s.startsWith "sr=" then (parseGeom (s.drop 3).toString).map (fun g => .base (.setRng g))
   else none
 
-def parseOps (s : String) : Option (List (Op Q)) :=
+def parseOps (s : String) : Option (List (HOp Q)) :=
   if s = "_" then some [] else (s.splitOn "|").mapM parseOp
 
-/-- tabulate the cached matrix (same entries: `force_e`) -/
-def forcedObj (o : Obj Q) : Obj Q := { o with cache := o.cache.map LMat.force }
+/-- tabulate the cached matrices (same entries: `force_e`) -/
+def forcedH (s : HState Q) : HState Q :=
+  { o := { s.o with cache := s.o.cache.map LMat.force }, t := s.t.map (fun t => { t with cache := t.cache.map LMat.force }) }
+
+/-- matrix of a parameter map by unit vectors -/
+def colsOf (rows cols : Nat) (f : (Nat → Q) → Nat → Q) : LMat Q := (columnsOf rows cols f).force
+
+/-- observation of a kept transposed model: `ktfwd`, `ktadj`, `ktgm` -/
+def obsKept (t : TObj Q) (o : Obj Q) : String :=
+  let tf := colsOf (t.fwdLen o) t.dom.parDim (t.fwdPar o)
+  let ta := colsOf (t.adjLen o) t.rng.parDim (t.adjPar o)
+  let tg := if !t.getMatrixOk o then "err" else fmtL (match t.cache with | some C => C | none => tf)
+  s!"ktfwd={if t.fwdOk o then fmtL tf else "err"} ktadj={if t.adjOk o then fmtL ta else "err"} ktgm={tg}"
 
 def stepHist : List String → Option String
   | ["hist", kind, a, b, gd, gr, ops] => do
@@ -112,9 +124,14 @@ def stepHist : List String → Option String
       | "mb", "-" => some (LinModel.ofMatrix A D Rg)
       | "fn", b => (parseLMat b).map (fun B => ({ A := A, B := B, dom := D, rng := Rg, matrixBacked := false } : LinModel Q))
       | _, _ => none)
-    -- the history is run by the model's `Obj.run`; every cached matrix is tabulated when it is stored
-    let fin := ops.foldl (fun o op => forcedObj (o.step op)) (Obj.fresh M)
-    some (obsLine fin)
+    -- the history is run by the model's `HState.step`; every cached matrix is tabulated when it is stored
+    let fin := ops.foldl (fun s op => forcedH (s.step op)) ({ o := Obj.fresh M, t := none } : HState Q)
+    match fin.t with
+    | none => some (obsLine fin.o)
+    | some t =>
+      -- a parent whose own forward raises still lets the kept T be observed
+      let base := obsLine fin.o
+      some ((if base = "err" then "fwd=err adj=err gm=err tfwd=err tadj=err tgm=err" else base) ++ " " ++ obsKept t fin.o)
   | _ => none
 
 def parseOptRat (s : String) : Option (Option Rat) :=
